@@ -42,9 +42,9 @@ func instanceStates(pkg *packages.Package) map[string]int64 {
 
 func runC01(c *core.Ctx) {
 	c.Rule("R1", "Operation bitmap: exhaustive states, agreeing shifts, disjoint halves", 5)
-	c.Rule("R2", "single lookup implementation: Filter ∘ findInstancesForKey under one lock hold", 4)
+	c.Rule("R2", "single lookup implementation: Filter ∘ findInstancesForKey under one lock hold, RF passed on unchanged", 5)
 	c.Rule("R3", "walk bookkeeping: append ⇔ filter includes; extend ⇔ operation extends on the state; per-zone totals count all instances", 4)
-	c.Rule("R4", "default strategy: quorum computed before filtering over max(RF, walked); slack = healthy − quorum", 3)
+	c.Rule("R4", "default strategy: quorum computed before filtering over max(RF, walked); keep ⇔ IsHealthy; slack = healthy − quorum", 5)
 	pkg := c.Prog.Pkg("ring")
 	if pkg == nil {
 		c.Miss("R1", "pkg=ring", "not loaded")
@@ -190,6 +190,22 @@ func runC01(c *core.Ctx) {
 			ok = ok && types.ExprString(finds[0].Expr.Args[4]) == types.ExprString(filt.Expr.Args[2])
 		}
 		c.Check(ok, "R2", "func=getReplicationSetForKey:compose", f.Pos(), "result = ReplicationSet{Instances, MaxErrors} of strategy.Filter(findInstancesForKey(key, op, …, no filter), op, same RF, …): "+detail, 1)
+		// the replication factor handed to the walk and to the strategy is the caller's or the configured one, nothing else
+		if filt != nil && len(filt.Expr.Args) > 2 {
+			if rfObj := f.ObjOf(filt.Expr.Args[2]); rfObj != nil {
+				ex := f.Graph().Exec(f.Graph().EntryLoc(), []an.Loc{f.Graph().Locate(filt.Expr)}, func(ast.Expr, an.Store) an.Tri { return an.U }, an.ExecOpts{Watch: rfObj})
+				vals := keys(ex.Vals[0])
+				okv := len(vals) > 0
+				for _, v := range vals {
+					if v != "<entry>" && v != "recv.cfg.ReplicationFactor" {
+						okv = false
+					}
+				}
+				c.Check(okv, "R2", "func=getReplicationSetForKey:rf", filt.Expr.Pos(), fmt.Sprintf("the replication factor given to Filter (the base of the majority) is the caller's value or the configured one on every path, never a derived quantity: %v", vals), len(vals))
+			} else {
+				c.Undec("R2", "func=getReplicationSetForKey:rf", filt.Expr.Pos(), "replication-factor argument of Filter is not a variable: "+f.Canon(filt.Expr.Args[2]))
+			}
+		}
 		c.Check(rlockedThroughout(f, "recv.mtx"), "R2", "func=getReplicationSetForKey:snapshot", f.Pos(), "search, walk and filter run under one read-lock hold of Ring.mtx", 1)
 	} else {
 		c.Miss("R2", "func=getReplicationSetForKey", "not found")
@@ -358,6 +374,57 @@ func c01Filter(c *core.Ctx, pkg *packages.Package) {
 		okAdj = res.OK() && (fn.Canon(adjust.Rhs[0]) == "len(p0)" || fn.Canon(adjust.Rhs[0]) == "len(instances)") && !g.NodeBefore(minDef, adjust) && adjust.Pos() < minDef.Pos()
 	}
 	c.Check(okAdj, "R4", "filter:max-rf-walked", fn.Pos(), "the quorum is taken over max(replication factor, number of walked instances): RF replaced by len(instances) ⇔ len(instances) > RF, before the quorum is computed", 3)
+	// keep ⇔ IsHealthy(op, timeout, now): the decision of the filtering loop
+	{
+		header, body, _ := g.LoopBlocks(loop)
+		var keep ast.Node
+		var drop ast.Node
+		fn.InspectShallow(func(n ast.Node) bool {
+			if !an.InNode(loop.Body, n) {
+				return true
+			}
+			switch x := n.(type) {
+			case *ast.IncDecStmt:
+				if x.Tok == token.INC {
+					keep = x
+				}
+			case *ast.AssignStmt:
+				if len(x.Lhs) == 1 && fn.ObjOf(x.Lhs[0]) == fn.Obj.Type().(*types.Signature).Params().At(0) {
+					drop = x
+				}
+			}
+			return true
+		})
+		if keep == nil || drop == nil {
+			c.Undec("R4", "filter:health", loop.Pos(), "keep (index++) / drop (instances = …) statements of the filtering loop not found")
+		} else {
+			inst := fn.Obj.Type().(*types.Signature).Params().At(0)
+			t := an.Table{G: g, From: an.Loc{B: body, I: 0}, Opts: an.ExecOpts{Header: header, NoTrack: map[types.Object]bool{inst: true}}, FreeUnknown: true,
+				Atoms:   []an.Atom{{Name: "healthy", Values: []string{"T", "F"}}},
+				Binder:  &an.Binder{Fn: fn, Re: []an.ReRole{an.RE(`^(p0|instances)\[\w+\]\.IsHealthy\(p1, p3, time\.Now\(\)\)$`, "HEALTHY")}, Bool: map[string]string{"HEALTHY": "healthy"}},
+				Targets: []an.Loc{g.Locate(keep), g.Locate(drop)}, Names: []string{"keep", "drop"},
+				Want: func(r an.Row, i int) an.Tri { return an.FromBool((r["healthy"] == "T") == (i == 0)) }}
+			res := t.Run()
+			c.Check(res.OK(), "R4", "filter:health", loop.Pos(), "an instance stays in the set ⇔ InstanceDesc.IsHealthy(op, heartbeatTimeout, now) — the same predicate every other ring query uses — and on nothing else: "+res.Summary(), res.Rows)
+		}
+		if ih := an.FindFunc(pkg, "InstanceDesc.IsHealthy"); ih != nil {
+			c.Analysed(ih.String())
+			conj := map[string]bool{}
+			n := 0
+			for _, b := range ih.Graph().Blocks {
+				if r := an.ReturnOf(b); r != nil && len(r.Results) == 1 {
+					n++
+					for _, cj := range conjuncts(r.Results[0]) {
+						conj[ih.Canon(cj)] = true
+					}
+				}
+			}
+			okh := n == 1 && len(conj) == 2 && conj["p0.IsInstanceInStateHealthy(recv.State)"] && conj["recv.IsHeartbeatHealthy(p1, p2)"]
+			c.Check(okh, "R4", "func=InstanceDesc.IsHealthy", ih.Pos(), fmt.Sprintf("healthy = state accepted by the operation ∧ heartbeat within the timeout: %v", keys(conj)), 1)
+		} else {
+			c.Miss("R4", "func=InstanceDesc.IsHealthy", "not found")
+		}
+	}
 	// outcome: error ⇔ healthy < quorum; slack = healthy - quorum
 	var okRet, errRet []*ast.ReturnStmt
 	for _, b := range g.Blocks {
@@ -383,4 +450,13 @@ func c01Filter(c *core.Ctx, pkg *packages.Package) {
 	res := t.Run()
 	slack := types.ExprString(okRet[0].Results[1])
 	c.Check(res.OK() && slack == "len(instances) - minSuccess" && types.ExprString(okRet[0].Results[0]) == "instances", "R4", "filter:outcome", okRet[0].Pos(), "fails ⇔ healthy instances < quorum; otherwise returns the healthy instances with MaxErrors = "+slack+": "+res.Summary(), res.Rows)
+}
+
+// conjuncts splits e at top-level && operators.
+func conjuncts(e ast.Expr) []ast.Expr {
+	e = an.Unparen(e)
+	if b, ok := e.(*ast.BinaryExpr); ok && b.Op == token.LAND {
+		return append(conjuncts(b.X), conjuncts(b.Y)...)
+	}
+	return []ast.Expr{e}
 }
